@@ -225,6 +225,18 @@ for _p, _t in {
  "C20": "Added in later rounds: const static locals with run-time initialisers; arrays of scalars initialised in constructors; the layout constructor resets the caller's convergence test.",
 }.items():
     CHECKS[_p]["text"] = CHECKS[_p]["text"].rstrip() + " " + _t
+# clauses added in round g
+for _p, _t in {
+ "C02": "Round g: no single-precision storage or conversion in the solver classes; the static solver re-places its blocks at the start of every satisfy().",
+ "C03": "Round g: the improver collects the shift segments of every hyperedge tree; hyperedge rerouting is not led through foreign connection points; nudging clamps to the channel in the unifying pass too.",
+ "C07": "Round g: makeFeasible rewinds every compound constraint's sub-constraint cursor, in the combined branch too; nothing overwrites the projected positions in moveTo.",
+ "C10": "Round g: every segment of every orthogonal connector is represented in nudging; no shiftable segment for a fixed-route connector; holding a segment in the solver and refusing its write-back are one decision.",
+ "C11": "Round g: the hyperedge improver never reads checkpoints (known finding).",
+ "C12": "Round g: a hyperedge registered through several junctions is collected once (calcHyperedgeConnectors interpreted); the improver's object lists are cleared in every transaction; setRecommendedPosition stores for fixed junctions too; a shifting segment that takes in a terminal becomes immovable.",
+ "C14": "Round g: doHOLA restores the caller's nodes' edge records on every return; the tree-only rank separation depends on node dimensions; addNetwork keeps earlier trees' entries in the shared lookups; sibling trees are kept apart for asymmetric trees.",
+ "C15": "Round g: observers of a SeparationConstraint reading the freed guideline variable (known finding); ~Router frees objects of pending additions.",
+}.items():
+    CHECKS[_p]["text"] = CHECKS[_p]["text"].rstrip() + " " + _t
 # clauses added in rounds e / f
 for _p, _t in {
  "C01": "Rounds e/f: the constraint heaps hand out stale and block-internal constraints first (comparator table, both copies); copyResult publishes position() for every variable; solver constructors and addConstraint clear a stale unsatisfiable flag.",
